@@ -37,6 +37,12 @@ func (c *copier) copy(v reflect.Value) reflect.Value {
 		if n, ok := c.ptrs[p]; ok {
 			return n
 		}
+		if et := v.Type().Elem(); skipType(et) && et.PkgPath() != "sync" && et.PkgPath() != "sync/atomic" {
+			// an object of a foreign type that synchronises itself (a *log.Logger, a
+			// *strings.Replacer) or whose identity matters to its package (*time.Location): shared,
+			// not copied
+			return v
+		}
 		n := reflect.New(v.Type().Elem())
 		c.ptrs[p] = n
 		n.Elem().Set(c.copy(v.Elem()))
@@ -126,9 +132,48 @@ func newCopier() *copier {
 // value (container/list's sentinel `root.next = &l.root`, a pointer to a struct field, to an
 // array element): copying pointee by pointee would tear such structures apart.
 type aliasScan struct {
-	seen   map[ptrKey]bool
-	ranges [][2]uintptr // [start, end) of every allocated object reached
-	ptrs   []uintptr
+	seen      map[ptrKey]bool
+	ranges    [][2]uintptr // [start, end) of every allocated object reached
+	varRanges [][2]uintptr // ... of the package variables themselves
+	ptrs      []uintptr
+	slices    []uintptr // data pointers of slices
+	foreign   string    // a foreign self-synchronising object that points at library state
+}
+
+// pointsIntoLibrary: v (a field of a foreign object that is not copied) refers to a value of
+// a library type - an io.Writer of the library inside a log.Logger, say.
+func pointsIntoLibrary(v reflect.Value, depth int) bool {
+	if depth > 3 || !v.IsValid() {
+		return false
+	}
+	switch v.Kind() {
+	case reflect.Interface, reflect.Ptr:
+		if v.IsNil() {
+			return false
+		}
+		e := v.Elem()
+		t := e.Type()
+		for t.Kind() == reflect.Ptr {
+			t = t.Elem()
+		}
+		if OwnedPackages[t.PkgPath()] {
+			return true
+		}
+		return pointsIntoLibrary(e, depth+1)
+	case reflect.Struct:
+		for i := 0; i < v.NumField(); i++ {
+			if pointsIntoLibrary(accessible(v.Field(i)), depth+1) {
+				return true
+			}
+		}
+	case reflect.Slice:
+		for i := 0; i < v.Len() && i < 64; i++ {
+			if pointsIntoLibrary(v.Index(i), depth+1) {
+				return true
+			}
+		}
+	}
+	return false
 }
 
 func (a *aliasScan) walk(v reflect.Value, depth int) {
@@ -137,7 +182,13 @@ func (a *aliasScan) walk(v reflect.Value, depth int) {
 	}
 	switch v.Kind() {
 	case reflect.Ptr:
-		if v.IsNil() || skipType(v.Type().Elem()) {
+		if v.IsNil() {
+			return
+		}
+		if et := v.Type().Elem(); skipType(et) {
+			if p := et.PkgPath(); p != "sync" && p != "sync/atomic" && a.foreign == "" && pointsIntoLibrary(v.Elem(), 0) {
+				a.foreign = et.String()
+			}
 			return
 		}
 		k := ptrKey{v.UnsafePointer(), v.Type()}
@@ -161,6 +212,7 @@ func (a *aliasScan) walk(v reflect.Value, depth int) {
 		if sz := v.Type().Elem().Size(); sz > 0 {
 			a.ranges = append(a.ranges, [2]uintptr{v.Pointer(), v.Pointer() + sz*uintptr(v.Cap())})
 		}
+		a.slices = append(a.slices, v.Pointer())
 		for i := 0; i < v.Len() && i < 4096; i++ {
 			a.walk(v.Index(i), depth+1)
 		}
@@ -176,12 +228,28 @@ func (a *aliasScan) walk(v reflect.Value, depth int) {
 		}
 	case reflect.Struct:
 		if skipType(v.Type()) {
+			if p := v.Type().PkgPath(); p != "sync" && p != "sync/atomic" && a.foreign == "" && v.CanAddr() && pointsIntoLibrary(v, 0) {
+				a.foreign = v.Type().String()
+			}
 			return
 		}
 		for i := 0; i < v.NumField(); i++ {
 			a.walk(accessible(v.Field(i)), depth+1)
 		}
 	}
+}
+
+// sliceOfVariable reports a slice that is a view of a package variable's own memory
+// (var view = table[:]): restored separately, the two would stop sharing.
+func (a *aliasScan) sliceOfVariable() bool {
+	for _, p := range a.slices {
+		for _, r := range a.varRanges {
+			if p >= r[0] && p < r[1] {
+				return true
+			}
+		}
+	}
+	return false
 }
 
 // interior reports a pointer that points strictly inside an object (not at its start).
@@ -251,6 +319,7 @@ func SnapshotGlobals() {
 			pv := reflect.ValueOf(g.Ptr)
 			if pv.Kind() == reflect.Ptr && !pv.IsNil() {
 				sc.ranges = append(sc.ranges, [2]uintptr{pv.Pointer(), pv.Pointer() + pv.Type().Elem().Size()})
+				sc.varRanges = append(sc.varRanges, [2]uintptr{pv.Pointer(), pv.Pointer() + pv.Type().Elem().Size()})
 				sc.walk(pv.Elem(), 0)
 			}
 		}
@@ -263,6 +332,12 @@ func SnapshotGlobals() {
 		}
 		if RestoreDisabled == "" && sc.interior() {
 			RestoreDisabled = "package state contains a pointer into the interior of another object"
+		}
+		if RestoreDisabled == "" && sc.sliceOfVariable() {
+			RestoreDisabled = "package state contains a slice that is a view of another package variable"
+		}
+		if RestoreDisabled == "" && sc.foreign != "" {
+			RestoreDisabled = "package state contains a " + sc.foreign + " (an object of a foreign type that is shared, not copied) that refers to state of the library"
 		}
 	}()
 	snapshot = make([]reflect.Value, len(Globals))
